@@ -8,6 +8,7 @@ import shutil
 import subprocess
 import sys
 import tempfile
+import zlib
 
 from engine import REPO, gen_states, pool_map
 from readers import read_text, run_cli, split_gfa, write_text
@@ -85,6 +86,18 @@ def one_run(d, tag, lines, order, by_chrom, withseq, gz, variant, hashseed=None,
     gfa = os.path.join(d, f"{tag}.gfa" + (".gz" if gz else ""))
     write_text(gfa, "\n".join(lines) + "\n", "gz" if gz else "plain")
     out = os.path.join(d, f"out_{tag}")
+    # one run in three goes into an output directory that already holds per-chromosome files of an earlier run on another
+    # version of the graph (same base name), for every requested chromosome - also for those this run will skip.
+    # "Produced by this run" = files that are new or whose content changed.
+    before = {}
+    if hashseed is None and zlib.crc32((tag + variant + ",".join(order)).encode()) % 3 == 0:
+        os.makedirs(out, exist_ok=True)
+        for c in order:
+            for ext, text in ((".gfa", f"S\tstale_{c}\t*\tLN:i:1\tSN:Z:{c}\tSO:i:0\tSR:i:0\tBO:i:900\tNO:i:0\n"), (".csv", f"stale_{c},scaffold,x,y,900,0\n")):
+                fp = os.path.join(out, f"{tag}-{c}{ext}")
+                with open(fp, "w") as f:
+                    f.write(text)
+                before[fp] = text
     argv = ["order_gfa", "--chromosome_order", ",".join(order), "--outdir", out] + (["--by-chrom"] if by_chrom else []) + (["--with-sequence"] if withseq else []) + [gfa]
     if hashseed is None:
         r = run_cli(argv, timeout=120)
@@ -93,8 +106,9 @@ def one_run(d, tag, lines, order, by_chrom, withseq, gz, variant, hashseed=None,
         env = dict(os.environ, PYTHONHASHSEED=str(hashseed), PYTHONPATH=REPO)
         p = subprocess.run([sys.executable, "-m", "gaftools"] + argv, env=env, capture_output=True, text=True, timeout=120)
         status = "ok" if p.returncode == 0 else f"exit:{p.returncode}:" + (p.stderr.strip().splitlines() or [""])[-1][:60]
-    gfas = sorted(glob.glob(os.path.join(out, "*.gfa")))
-    csvs = sorted(glob.glob(os.path.join(out, "*.csv")))
+    produced = lambda p: p not in before or read_text(p) != before[p]      # noqa: E731
+    gfas = sorted(p for p in glob.glob(os.path.join(out, "*.gfa")) if produced(p))
+    csvs = sorted(p for p in glob.glob(os.path.join(out, "*.csv")) if produced(p))
     # files in requested order (the complete file is a single one)
     def key(p):
         for k, c in enumerate(order):
@@ -231,6 +245,10 @@ def sessions(ctx, cfgs, mode, opts_for=lambda k: {}):
             ren = [{}, {"chrA": "chr10", "chrB": "chr1", "chrC": "chr2"}, {"chrA": "chr1", "chrB": "chr10", "chrC": "chr100"}][k % 3]
             nodes = [dict(n, sn=ren.get(n["sn"], n["sn"])) for n in st["nodes"]]
             chroms = [dict(c, name=ren.get(c["name"], c["name"])) for c in st["chroms"]]
+            if k % 4 == 3 and len(chroms) <= 2:
+                # a contig that is one segment without any link (chrM, an unplaced contig): a chain of a single scaffold node
+                nodes = nodes + [{"id": "s900", "sn": "chrM", "so": 0, "ln": 2, "sr": 0}]
+                chroms = chroms + [{"name": "chrM", "bad": False, "elems": [{"k": "s", "ns": ["s900"]}]}]
             jobs.append((f"{cfg[12:-4]}-{k}", {"nodes": nodes, "links": st["links"], "chroms": chroms}, mode, ctx.seed * 1009 + k, opts_for(k)))
     return jobs
 
